@@ -4,6 +4,8 @@
 package main
 
 import (
+	"io"
+	"log"
 	"os"
 
 	"verifharness/corelib"
@@ -14,19 +16,21 @@ var classes = []string{"basic", "located", "nested", "prefix", "long", "root", "
 
 func run(a *hlib.Args, e *hlib.Emitter) error {
 	os.Setenv("TMPDIR", a.Scratch)
+	log.SetOutput(io.Discard)
 	if a.Replay != "" {
 		cs, err := corelib.ReadCases(a.Replay)
 		if err != nil {
 			return err
 		}
-		for i, c := range cs {
-			if err := c.Build(a.Scratch, i); err != nil {
-				return err
-			}
+		if err := corelib.BuildAll(cs, a.Scratch, 8); err != nil {
+			return err
+		}
+		for _, c := range cs {
 			e.Emit(c)
 		}
 		return nil
 	}
+	var cs []*corelib.FileCase
 	for i := 0; i < a.N; i++ {
 		r := hlib.NewRng(a.Seed, uint64(100+i))
 		class := classes[i%len(classes)]
@@ -40,9 +44,12 @@ func run(a *hlib.Args, e *hlib.Emitter) error {
 			nq = 40
 		}
 		c.Queries = corelib.GenQueries(g, nq)
-		if err := c.Build(a.Scratch, i); err != nil {
-			return err
-		}
+		cs = append(cs, c)
+	}
+	if err := corelib.BuildAll(cs, a.Scratch, 8); err != nil {
+		return err
+	}
+	for _, c := range cs {
 		e.Emit(c)
 	}
 	return nil
